@@ -47,7 +47,7 @@ func split(ctx context.Context, r io.Reader) (<-chan string, <-chan error) {
 		}
 		if err := sc.Err(); err != nil {
 			verifPoint("split.errsend.pre", 0, "")
-			errc <- err
+			sendErr(ctx, errc, err)
 			verifPoint("split.errsend.post", 0, "")
 			return
 		}
@@ -63,6 +63,15 @@ func split(ctx context.Context, r io.Reader) (<-chan string, <-chan error) {
 	}()
 
 	return blockc, errc
+}
+
+// sendErr reports err to the stage's error channel unless the pipeline has been cancelled: each error
+// channel is read at most once, so after the first error (or a cancellation) nobody may be receiving.
+func sendErr(ctx context.Context, errc chan<- error, err error) {
+	select {
+	case errc <- err:
+	case <-ctx.Done():
+	}
 }
 
 func isRootBlockBeginning(l string) bool {
